@@ -380,6 +380,13 @@ func c16EnumRule(r *core.Run, rule string) {
 					okRF = true
 				}
 			}
+			okInit := false
+			for _, g := range gs {
+				if (strings.Contains(g, "\"init\"") || strings.Contains(g, "package initializer")) && ((strings.HasPrefix(g, "T:") && strings.Contains(g, "!=")) || (strings.HasPrefix(g, "F:") && (strings.Contains(g, "==") || strings.Contains(g, "HasPrefix(")))) {
+					okInit = true
+				}
+			}
+			r.Check(okInit, rule, fnm+"#synthetic-skip-not-init", ret.Pos(), "the synthetic package initializer is not skipped: function literals in package-level initialisers are its children", "the synthetic-function skip also returns for the package initializer before its anonymous functions are visited: function literals assigned to package-level variables are never fingerprinted or scanned [guards: "+strings.Join(gs, " ; ")+"]")
 			r.Check(okRF, rule, fnm+"#synthetic-skip", ret.Pos(), "synthetic functions are skipped only if they are not range-over-func bodies", "every synthetic function is skipped, including range-over-func loop bodies that carry source statements: edits inside such loops are never fingerprinted [guards: "+strings.Join(gs, " ; ")+"]")
 		}
 		// recursion into AnonFuncs on every non-skipped path: guards of the recursive call are only the loop + the skips
